@@ -106,6 +106,15 @@ theorem C20_precommit_ghost_eq_spec_partial (h : t.WF) (h0 : 0 < total ws) (ops 
     | none => exact hno
     | some m => have := hmemo m hm; rw [hno m] at this; exact Bool.noConfusion this
 
+/-- the GHOST has the highest block number among the blocks with a supermajority (the paper's wording) -/
+theorem C20_ghost_highest_number (h : t.WF) {ops : List Op} {ph : Bool} {g : Nat}
+    (hg : IsGhost t ws ops ph (some g)) (B : Nat) (hB : superm t ws ops ph B = true) :
+    depth t B ≤ depth t g := by
+  unfold depth
+  by_cases hne : B = g
+  · subst hne; exact Nat.le_refl _
+  · exact Nat.le_of_lt (Tree.depth_lt h (hg.2 B hB) hne)
+
 /-! ## finalized -/
 
 /-- finalized block of the paper: the highest block with a supermajority of both prevotes and precommits -/
@@ -425,7 +434,7 @@ def opsWrap : List Op := [pv 0 1, pv 1 1, pv 2 1, pc 0 1, pc 0 2, pc 1 1, pc 1 2
 /-- a tolerant history with a tolerated equivocation in each phase, duplicates and a non-voter -/
 def tDeep : Tree := ⟨[0, 0, 1, 1]⟩          -- 0 ← 1 ← {2, 3}
 def opsOk : List Op :=
-  [pv 0 2, pv 1 2, pv 9 3, pv 3 2, pv 3 3, pv 0 2, pv 2 3, pc 0 2, pc 1 1, pc 3 2, pc 3 0, pc 2 2, pc 3 1]
+  [pv 0 2, pv 1 2, pv 9 3, pv 3 2, pv 3 3, pv 0 2, pv 2 3, pc 0 2, pc 1 1, pc 3 2, pc 3 0, pc 2 1, pc 3 1]
 
 theorem tFork_WF : tFork.WF := by
   refine ⟨by decide, ?_⟩
@@ -495,13 +504,14 @@ theorem C20_estimate_intolerant_counterexample :
 open Ex in
 /-- The hypotheses of the theorems are satisfiable by a non-trivial history (a tolerated equivocation in each
 phase, a duplicate, a vote of a non-voter, thresholds reached in both phases), and on it the round reports
-ghost 2, finalized 1, estimate 2, completable. -/
+ghost 2, finalized 1, estimate 1 (block 2 can no longer get a
+precommit supermajority), completable. -/
 theorem C20_hypotheses_satisfiable :
     tDeep.WF ∧ 0 < total ws4 ∧ ValidOps tDeep opsOk ∧ tolerant ws4 opsOk false = true ∧
     tolerant ws4 opsOk true = true ∧ NoGap ws4 opsOk ∧ 2 * total ws4 < MOD ∧
     equivWeight ws4 opsOk false = 1 ∧ equivWeight ws4 opsOk true = 1 ∧
     (run tDeep ws4 opsOk).ghost = some 2 ∧ (run tDeep ws4 opsOk).fin = some 1 ∧
-    (run tDeep ws4 opsOk).est = some 2 ∧ (run tDeep ws4 opsOk).compl = true := by
+    (run tDeep ws4 opsOk).est = some 1 ∧ (run tDeep ws4 opsOk).compl = true := by
   refine ⟨tDeep_WF, by decide, ?_, by decide, by decide, ?_, by decide, by decide, by decide, by decide,
     by decide, by decide, by decide⟩
   · intro o ho
